@@ -85,7 +85,7 @@ def generate(rng, tier):
         return [rng.choice([['count', 1], ['to_list'], ['last'], ['identity']])]
     scale_cfgs = [
         (['roll', 40, 1, inner_()], 'long'), (['roll', 100, 3, inner_()], 'long'), (['roll', 130, 1, inner_()], 'long2'),
-        (['roll', 257, 3, inner_()], 'long'), (['roll', 64, 50, inner_()], 'long'), (['roll', 300, 300, inner_()], 'long'),
+        (['roll', 257, 3, inner_()], 'long'), (['roll', 64, 50, inner_()], 'long'), (['roll', 300, 300, inner_()], 'long'), (['roll', 300, 200, inner_()], 'long'),
         (['group', ['mod', 2], inner_()], 'many'), (['group', ['id'], [['group', ['mod', 2], inner_()]]], 'many_groups'),
         (['group', ['mod', 300], inner_()], 'long'), (['group', ['id'], inner_()], 'many_groups'),
         (['split', ['floordiv', 50], inner_()], 'many'), (['split', ['id'], inner_()], 'long'),
@@ -96,7 +96,9 @@ def generate(rng, tier):
     reps = {'quick': 1, 'thorough': 10, 'search': 0}[tier]
     for _ in range(reps):
         for hd, shape in scale_cfgs:
-            cases.append({'ast': [hd], 'trace': muxgen.gen_trace_scale(rng, shape), 'scale': True})
+            # a roll is fed more than two full windows plus a round of its ring of open windows
+            mn = (2 * hd[1] + 2 * hd[2] + 7) if hd[0] == 'roll' else 0
+            cases.append({'ast': [hd], 'trace': muxgen.gen_trace_scale(rng, shape, min_n=mn), 'scale': True})
     if tier != 'search':
         for d in ([1, 2] if tier == 'quick' else [1, 2, 3]):
             for ast in nestings(rng, d):
